@@ -50,8 +50,12 @@ def _collapse_invariants(
     if invariants_dunder in namespace:
         invariants.extend(namespace[invariants_dunder])
 
-    # Change the final invariants in the namespace
-    if invariants:
+    # Change the final invariants in the namespace.
+    #
+    # The class needs its own list as soon as one of the bases has a list (even if the merged list is empty,
+    # e.g., no invariant is checked on attribute setting so far): otherwise an invariant added to the class later
+    # would be appended to the list of the base class and leak to the base and to all its other sub-classes.
+    if invariants or any(hasattr(base, invariants_dunder) for base in bases):
         namespace[invariants_dunder] = invariants
 
     # endregion
